@@ -285,6 +285,117 @@ def _history(args):
     return {"tid": tid, "steps": steps, "skipped": skipped}
 
 
+def _sys_history(args):
+    """The same pipeline on the whole system: ProxyKmipClient -> TLS on loopback -> KmipServer's session threads -> engine ->
+    SQLite, with real restarts of the server PROCESS on the same configuration and database."""
+    import shutil
+    import sqlite3
+    from .. import sysdrv
+    tid, seed, nsteps, pki = args
+    common.scratch()
+    sysdrv.install_wrap_socket()
+    r = random.Random(seed)
+    intern = E.new_interner()
+    rsa = E.rsa_pair()
+    root = os.path.join(common.scratch(), "sys05_%s" % tid)
+    sysm = sysdrv.System(root, tls_client_auth=True, issue=lambda *a: None)
+    txt = open(sysm.conf).read().replace(os.path.join(os.path.dirname(root), "pki"), pki)
+    open(sysm.conf, "w").write(txt)
+    sysm.pki = pki
+    steps, uids, skipped = [], [], 0
+
+    def idate(u):
+        con = sqlite3.connect("file:%s?mode=ro" % sysm.db, uri=True, timeout=10)
+        try:
+            return con.execute("select initial_date from managed_objects where uid = ?", (u,)).fetchone()[0]
+        finally:
+            con.close()
+    try:
+        sysm.start()
+        for i in range(nsteps):
+            ver = r.choice(G.VERSIONS)
+            v10 = ver[0] * 10 + ver[1]
+            k = r.random()
+            if k > 0.95 and uids:
+                sysm.stop()
+                sysm.start()
+                steps.append({"kind": "restart"})
+                continue
+            cl = sysm.client(os.path.join(pki, "alice.pem"), os.path.join(pki, "alice.key"), ver=ver)
+            try:
+                cl.open()
+            except Exception as e:
+                steps.append({"kind": "noop", "why": "connect failed: %s" % str(e)[:60]})
+                continue
+            try:
+                if k < 0.35 or not uids:
+                    obj, spec = rnd_object(r, rsa)
+                    try:
+                        uid = cl.register(obj)
+                    except Exception as e:
+                        skipped += 1
+                        steps.append({"kind": "noop", "why": "register refused: %s" % str(e)[:80], "otype": TYPENAME[type(obj)], "ver": v10})
+                        continue
+                    u = A.to_uid(uid)
+                    o, rec, x = supplied(obj, spec, u, intern, idate(u), "alice", None)
+                    steps.append({"kind": "put", "uid": u, "rec": o, "x": x, "gen": False, "ver": v10})
+                    uids.append(u)
+                elif k < 0.42:
+                    ln = r.choice([128, 256])
+                    mask = r.sample(ALLMASK, 2)
+                    u = A.to_uid(cl.create(enums.CryptographicAlgorithm.AES, ln, name="gen", cryptographic_usage_mask=mask))
+                    steps.append({"kind": "put", "uid": u, "gen": True, "x": "{}", "ver": v10, "rec": {
+                        "uid": u, "type": "SymmetricKey", "owner": "alice", "policy": "default", "state": "PreActive",
+                        "mask": sorted(set(m.name for m in mask) | {"ENCRYPT", "DECRYPT"}), "names": ["gen"], "groups": [], "appinfo": [],
+                        "sensitive": False, "idate": idate(u), "alg": "AES", "len": ln, "fmt": "RAW", "val": "gen", "sub": "NA"}})
+                    uids.append(u)
+                elif k < 0.72:
+                    u = r.choice(uids)
+                    try:
+                        got = cl.get(str(u))
+                    except Exception as e:
+                        steps.append({"kind": "getfail", "uid": u, "why": str(e)[:100], "ver": v10})
+                        continue
+                    rec, x = proj(got, intern)
+                    steps.append({"kind": "get", "uid": u, "rec": rec, "x": x, "ver": v10})
+                elif k < 0.88:
+                    u = r.choice(uids)
+                    try:
+                        _, attrs = cl.get_attributes(str(u))
+                    except Exception as e:
+                        steps.append({"kind": "getfail", "uid": u, "why": "attrs: " + str(e)[:100], "ver": v10})
+                        continue
+                    steps.append({"kind": "attrs", "uid": u, "ver": v10, "attrs": [T.norm_attr(A.abs_attribute(a)) for a in attrs]})
+                else:
+                    u = r.choice(uids)
+                    try:
+                        names = cl.get_attribute_list(str(u))
+                    except Exception as e:
+                        steps.append({"kind": "getfail", "uid": u, "why": "names: " + str(e)[:100], "ver": v10})
+                        continue
+                    steps.append({"kind": "names", "uid": u, "ver": v10, "names": list(names)})
+            finally:
+                try:
+                    cl.close()
+                except Exception:
+                    pass
+    finally:
+        sysm.stop()
+        shutil.rmtree(root, ignore_errors=True)
+    return {"tid": tid, "steps": steps, "skipped": skipped}
+
+
+def system_histories(quick):
+    import concurrent.futures
+    from .. import sysdrv
+    pki = os.path.join(common.scratch(), "pki05")
+    issue = sysdrv.make_pki(pki)
+    issue("alice", ["alice"], "client")
+    n, m = (6, 30) if quick else (16, 120)
+    with concurrent.futures.ProcessPoolExecutor(max_workers=min(common.NCPU, 8)) as pool:
+        return list(pool.map(_sys_history, [("s%d" % i, common.SEED * 977 + i, m, pki) for i in range(n)]))
+
+
 def check(run, tier):
     quick = tier == "quick"
     run.rule = ("TraceC05.tla keeps an abstract store built from what the CLIENT supplied (never from the database) and checks every "
@@ -298,6 +409,11 @@ def check(run, tier):
     n, m = (48, 60) if quick else (400, 120)
     with multiprocessing.Pool(common.NCPU) as pool:
         traces = pool.map(_history, [("c%d" % i, common.SEED * 131 + i, m) for i in range(n)])
+    # the same pipeline on the whole system (real TLS, the server as its own process, real restarts of that process)
+    systraces = system_histories(quick)
+    run.extra["system_histories"] = {"servers": len(systraces), "steps": sum(len(t["steps"]) for t in systraces),
+                                     "process_restarts": sum(1 for t in systraces for s in t["steps"] if s["kind"] == "restart")}
+    traces = list(traces) + systraces
     path = os.path.join(common.scratch(), "c05.json")
     json.dump({"polsets": [], "traces": [], "hists": [], "c5": [{"tid": t["tid"], "steps": [dict(s, **({"x": s.get("x", "")})) for s in t["steps"]]} for t in traces]},
               open(path, "w"))
